@@ -177,6 +177,13 @@ def bounded_emitted_models(tier, seed):
                                                                          "mode": {"type": "string", "enum": ["", "on", "off"]}}},
         "OnlyMap": {"type": "object", "additionalProperties": {"$ref": REF + "Plain"}},
         "NoType": {"properties": {"x": S, "y": S}, "required": ["y"]},
+        # optional properties carrying a default of every kind: none of them may turn into a required field
+        "Defaults": {"type": "object", "required": ["id"], "properties": {
+            "id": S, "s": {"type": "string", "default": "x"}, "i": {"type": "integer", "default": 0}, "b": {"type": "boolean", "default": False},
+            "arr": {"type": "array", "items": S, "default": ["a"]}, "free": {"type": "object", "default": {"k": 1}},
+            "prefs": {"type": "object", "properties": {"theme": S}, "default": {"theme": "dark"}},
+            "settings": {"allOf": [{"$ref": REF + "Plain"}], "default": {"id": "d"}},
+            "n": {"type": "number", "default": 1.5}, "e": {"type": "string", "enum": ["a", "b"], "default": "a"}}},
         "Level": {"type": "integer", "enum": [0, 1, 2, -1]},
         "Mode": {"type": "string", "enum": ["", "on", "off", "0", "false"]},
     }
